@@ -61,6 +61,7 @@ class LayerMerger(LayerMerger):
             layer_img, layer_coverage = self.layers[0]
             layer_opts = layer_img.image_opts
             if (((layer_opts and not layer_opts.transparent) or image_opts.transparent)
+                and (not layer_opts or layer_opts.opacity is None or layer_opts.opacity >= 1.0)
                 and (not size or size == layer_img.size)
                 and (not layer_coverage or not layer_coverage.clip)
                     and not coverage):
